@@ -110,6 +110,8 @@ def evaluate(plan, ctx):
     if plan.get("binarized"):
         ev.append("thompson_binarizer")
     ev.append("data=" + plan.get("data_container", "list"))
+    if any(b.get("pre") for b in plan["bandits"]):
+        ev.append("bandit_used_before_the_simulation")
     # per-arm statistics
     for scope, idx, got in (("total", list(range(n)), sim.arm_to_stats_total), ("train", tr, sim.arm_to_stats_train),
                             ("test", te, sim.arm_to_stats_test)):
